@@ -142,7 +142,8 @@ class Check:
                 t = (ll2, job['entry'], 'twin', None, job.get('twin_timeout', 120), job['max_steps'], 0)
                 pending.append((('twin', ji), pool.apply_async(_worker, (t,))))
         libn = cbuild.build_lib_native(self.scratch)  # overlaps with the symbolic runs
-        while pending:
+        queue = []  # (job index, trace) waiting for a worker; bounded in-flight so that deadlines are honoured
+        while pending or queue:
             still = []
             for key, a in pending:
                 if not a.ready():
@@ -151,15 +152,21 @@ class Check:
                 r = a.get()
                 per_job.setdefault(key, []).append(r)
                 if isinstance(key, int) and r['frontier']:
-                    job = jobs[key]
-                    left = job['timeout'] - (time.time() - t_start)
-                    if left <= 1 or r['err']:
-                        job['_left'] += len(r['frontier'])
+                    if r['err']:
+                        jobs[key]['_left'] += len(r['frontier'])
                     else:
-                        for tr in r['frontier']:
-                            t = (job['ll'], job['entry'], 'run', tr, min(job['slice'], left), job['max_steps'], 0)
-                            still.append((key, pool.apply_async(_worker, (t,))))
+                        queue.extend((key, tr) for tr in r['frontier'])
             pending = still
+            while queue and len(pending) < 2 * NPROC:
+                key, tr = queue.pop()
+                job = jobs[key]
+                left = job['timeout'] - (time.time() - t_start)
+                if left <= 1:
+                    job['_left'] += 1
+                    continue
+                sl = job['slice'] if len(queue) < 2 * NPROC else 4 * job['slice']
+                t = (job['ll'], job['entry'], 'run', tr, min(sl, left), job['max_steps'], 0)
+                pending.append((key, pool.apply_async(_worker, (t,))))
             time.sleep(0.02)
         pool.close()
         pool.join()
